@@ -31,6 +31,35 @@ fn contains_duplicates<L: Lockable>(data: L) -> bool {
 	false
 }
 
+/// The locks which are currently held by a blocking acquisition of a
+/// [`RetryingLockCollection`]: every lock in `locks[0..locked]` and, once
+/// `first_locked` is set, `locks[first_index]` (which may lie outside of that
+/// range).
+#[derive(Default)]
+struct Held {
+	first_index: Cell<usize>,
+	first_locked: Cell<bool>,
+	locked: Cell<usize>,
+}
+
+impl Held {
+	/// Releases exactly the locks which are currently held. The bookkeeping is
+	/// reset first, so that if a release panics, the unwind handler does not
+	/// release anything a second time.
+	unsafe fn release(&self, locks: &[&dyn RawLock], unlock_all: unsafe fn(&[&dyn RawLock])) {
+		let locked = self.locked.replace(0);
+		let first_locked = self.first_locked.replace(false);
+
+		let mut held = locks[0..locked].to_vec();
+		if first_locked && self.first_index.get() >= locked {
+			held.push(locks[self.first_index.get()]);
+		}
+
+		// safety: the caller assumes that these are the locks we hold
+		unlock_all(&held);
+	}
+}
+
 unsafe impl<L: Lockable> RawLock for RetryingLockCollection<L> {
 	#[mutants::skip] // this should never run
 	#[cfg(not(tarpaulin_include))]
@@ -50,18 +79,19 @@ unsafe impl<L: Lockable> RawLock for RetryingLockCollection<L> {
 		}
 
 		// these will be unlocked in case of a panic
-		let first_index = Cell::new(0);
-		let locked = Cell::new(0);
+		let held = Held::default();
 		handle_unwind(
 			|| unsafe {
 				'outer: loop {
 					// This prevents us from entering a spin loop waiting for
 					// the same lock to be unlocked
 					// safety: we have the thread key
-					locks[first_index.get()].raw_write();
+					locks[held.first_index.get()].raw_write();
+					held.first_locked.set(true);
 					for (i, lock) in locks.iter().enumerate() {
-						if i == first_index.get() {
+						if i == held.first_index.get() {
 							// we've already locked this one
+							held.locked.set(i + 1);
 							continue;
 						}
 
@@ -71,21 +101,13 @@ unsafe impl<L: Lockable> RawLock for RetryingLockCollection<L> {
 						// immediately after, causing a panic
 						// safety: we have the thread key
 						if lock.raw_try_write() {
-							locked.set(locked.get() + 1);
+							held.locked.set(i + 1);
 						} else {
-							// safety: we already locked all of these
-							attempt_to_recover_writes_from_panic(&locks[0..i]);
-							if first_index.get() >= i {
-								// safety: this is already locked and can't be
-								//         unlocked by the previous loop
-								locks[first_index.get()].raw_unlock_write();
-							}
-
-							// nothing is locked anymore
-							locked.set(0);
+							// safety: this releases exactly what we locked
+							held.release(&locks, utils::unlock_all_writes);
 
 							// call lock on this to prevent a spin loop
-							first_index.set(i);
+							held.first_index.set(i);
 							continue 'outer;
 						}
 					}
@@ -94,12 +116,7 @@ unsafe impl<L: Lockable> RawLock for RetryingLockCollection<L> {
 					break;
 				}
 			},
-			|| {
-				utils::attempt_to_recover_writes_from_panic(&locks[0..locked.get()]);
-				if first_index.get() >= locked.get() {
-					locks[first_index.get()].raw_unlock_write();
-				}
-			},
+			|| held.release(&locks, utils::unlock_all_writes),
 		)
 	}
 
@@ -150,35 +167,28 @@ unsafe impl<L: Lockable> RawLock for RetryingLockCollection<L> {
 			return;
 		}
 
-		let locked = Cell::new(0);
-		let first_index = Cell::new(0);
+		// these will be unlocked in case of a panic
+		let held = Held::default();
 		handle_unwind(
 			|| 'outer: loop {
 				// safety: we have the thread key
-				locks[first_index.get()].raw_read();
+				locks[held.first_index.get()].raw_read();
+				held.first_locked.set(true);
 				for (i, lock) in locks.iter().enumerate() {
-					if i == first_index.get() {
+					if i == held.first_index.get() {
+						held.locked.set(i + 1);
 						continue;
 					}
 
 					// safety: we have the thread key
 					if lock.raw_try_read() {
-						locked.set(locked.get() + 1);
+						held.locked.set(i + 1);
 					} else {
-						// safety: we already locked all of these
-						attempt_to_recover_reads_from_panic(&locks[0..i]);
-
-						if first_index.get() >= i {
-							// safety: this is already locked and can't be unlocked
-							//         by the previous loop
-							locks[first_index.get()].raw_unlock_read();
-						}
-
-						// these are no longer locked
-						locked.set(0);
+						// safety: this releases exactly what we locked
+						held.release(&locks, utils::unlock_all_reads);
 
 						// don't go into a spin loop, wait for this one to lock
-						first_index.set(i);
+						held.first_index.set(i);
 						continue 'outer;
 					}
 				}
@@ -186,12 +196,7 @@ unsafe impl<L: Lockable> RawLock for RetryingLockCollection<L> {
 				// safety: we locked all the data
 				break;
 			},
-			|| {
-				utils::attempt_to_recover_reads_from_panic(&locks[0..locked.get()]);
-				if first_index.get() >= locked.get() {
-					locks[first_index.get()].raw_unlock_read();
-				}
-			},
+			|| held.release(&locks, utils::unlock_all_reads),
 		)
 	}
 
